@@ -46,6 +46,9 @@ def run(tier, seed, only=None):
             # ... and for a project in which one source file is reachable through two paths (a symbolic link)
             for k in range(2 if tier == "quick" else 6):
                 cases.append({"id": "%s-repeat-symlink-%d" % (drv, k), "h": rep[0]["h"], "ev": True, "viz": False, "nfiles": 2, "driver": drv, "symlink": True})
+            # ... and with a mapping table whose keys differ only in their path qualifier (fresh processes, fresh hash seeds)
+            for k in range(4 if tier == "quick" else 12):
+                cases.append({"id": "%s-repeat-qualmaps-%d" % (drv, k), "h": rep[0]["h"], "ev": True, "viz": False, "nfiles": 2, "driver": drv, "qualmaps": True})
             fh, _ = P.gen_histories("Gen_Pipeline_force_%s" % drv)
             for i, h in enumerate(fh):
                 # tamper with a binding before the last run so that "rewritten" is observable in content
